@@ -229,6 +229,8 @@ func init() {
 			{Module: "MC_C09", Frac: frac(0.3, 1)}, {Module: "MC_C11", Frac: frac(0.01, 0.1)},
 			// goJSONSchema extension objects (explicit identifiers that collide with derived or with each other's names)
 			{Module: "MC_C01", Keep: func(u *rt.Unit) bool { return u.Str("fam") == "ext" }},
+			// documents that hold `$defs` next to a legacy `definitions` block with a same-named, different entry
+			{Module: "MC_C03", Keep: func(u *rt.Unit) bool { return u.Str("ctx") == "bothdefs" }},
 		}}
 }
 
